@@ -29,4 +29,10 @@ impl Rng {
     pub fn fork(&mut self) -> Rng {
         Rng(self.next())
     }
+    /// the generator of the `i`-th case of a loop: derived from this generator's state and `i` alone, so
+    /// that what a case draws does not depend on how much the cases before it drew (which depends on
+    /// their content - the length of a randomised signature, say)
+    pub fn at(&self, i: u64) -> Rng {
+        Rng::new(self.0 ^ (i.wrapping_add(1)).wrapping_mul(0xD1B5_4A32_D192_ED03))
+    }
 }
